@@ -8,6 +8,9 @@ pub mod c06;
 pub mod c07;
 pub mod c08;
 pub mod c09;
+pub mod c10;
+pub mod c11;
+pub mod c12;
 pub mod c13;
 pub mod c14;
 pub mod c15;
@@ -18,7 +21,7 @@ pub mod parsers;
 
 use crate::engine::{run, Opts};
 
-pub const ALL: &[&str] = &["C01", "C02", "C07", "C08", "C15", "C17"];
+pub const ALL: &[&str] = &["C01", "C02", "C03", "C04", "C05", "C06", "C07", "C08", "C09", "C10", "C11", "C12", "C13", "C14", "C15", "C16", "C17", "C18"];
 
 pub fn dispatch(id: &str, opts: &Opts) -> i32 {
     match id {
@@ -31,6 +34,9 @@ pub fn dispatch(id: &str, opts: &Opts) -> i32 {
         "C07" => run::<c07::C07>(opts),
         "C08" => run::<c08::C08>(opts),
         "C09" => run::<c09::C09>(opts),
+        "C10" => run::<c10::C10>(opts),
+        "C11" => run::<c11::C11>(opts),
+        "C12" => run::<c12::C12>(opts),
         "C13" => run::<c13::C13>(opts),
         "C14" => run::<c14::C14>(opts),
         "C15" => run::<c15::C15>(opts),
